@@ -19,6 +19,7 @@ EXPLANATION = ("The five sort functions are folded into a table (key expression,
                "ends the while loop, and a session leaves the queue only when its index is at its last level or the next level was "
                "infeasible; the uncontrolled baseline writes [max_pilot_signal(station)] for each active session and nothing else."
                ' Added in round 3: feasibility-oracle rules (shared with C06), one fresh infrastructure description per call (shared with C07), per-station accessor table (shared with C13), the baseline mapping judged on its expanded comprehension.')
+EXPLANATION += " Added in rounds 4-5: stateless-view and escape rules (an allocation that trims level ladders in place must not be trimming the network's); lowest-level exhaustion in the typestate of the finite-rate search."
 NOT_DECIDED = ("that the granted rate is numerically the largest feasible one within the bisection tolerance (a statement about every "
                "alternative value); behaviour under ties of the priority key")
 
